@@ -550,7 +550,7 @@ def mutate_parseable(rng, text):
             toks[i] = rng.choice(UNDEFINED[:3]) if rng.random() < 0.4 else rng.choice(idents)
         elif k in (2, 3, 4) and idx_num:
             i = rng.choice(idx_num)
-            toks[i] = rng.choice(EXTREME_NUMS)
+            toks[i] = rng.choice(LOOP_COUNTS)      # (a replaced number may be a loop bound: see LOOP_COUNTS)
         elif k == 5:
             i = rng.randrange(len(toks))
             del toks[i]
